@@ -1,5 +1,6 @@
 import Driver.Codec
 import Driver.Extra
+import Driver.CmdC20
 import Rbacx.Spec.Combining
 import Rbacx.Spec.Operators
 import Rbacx.Spec.DenyByDefault
@@ -113,6 +114,22 @@ def handle (j : Json) : Except String Json := do
       let c03 := Spec.c03 o cfg pol req (fieldStr impl "effect") reason
       let c11 := Spec.c11 o cfg pol req (fieldBool impl "allowed") (fieldStr impl "effect") rid pid reason obls.asList
       pure (Json.mkObj [("model", model), ("spec_c01", c01), ("spec_c03", optB c03), ("spec_c11", optB c11)])
+  | "asgi" => do
+    let cfg ← decCfg (field j "cfg") consts
+    let pol ← fieldVal j "policy"
+    let a := field j "asgi"
+    let acfg : AsgiCfg := { mode := fieldStr a "mode" "enforce", hasBuilder := fieldBool a "builder", addHeaders := fieldBool a "add_headers" }
+    let st ← fieldVal a "scope_type"
+    let builder : Except String Request ←
+      match field a "builder_raises" with
+      | .str cls => pure (.error cls)
+      | _ => do let r ← decReq (field j "req"); pure (.ok r)
+    let engine : Request → Except String Decision := fun r =>
+      match guardEval o cfg pol r with
+      | .ok (d, _) => .ok d
+      | .error .typeMismatch => .error "ConditionTypeError"
+      | .error (.raised cls) => .error cls
+    pure (.arr ((asgiCall o acfg st builder engine).map encAction).toArray)
   | "eval-policy" => do
     let pol ← fieldVal j "policy"
     let env ← fieldVal j "env"
